@@ -53,6 +53,7 @@ func (m *Manager) DataSubmissionLoop(ctx context.Context) {
 		if m.pendingData.isEmpty() {
 			continue
 		}
+		m.skipEmptyPendingData(ctx)
 
 		signedDataToSubmit, err := m.createSignedDataToSubmit(ctx)
 		if err != nil {
@@ -225,6 +226,24 @@ func (m *Manager) submitDataToDA(ctx context.Context, signedDataToSubmit []*type
 		},
 		"data",
 	)
+}
+
+// skipEmptyPendingData advances the last submitted data height over the leading pending blocks that carry no
+// transactions. Empty data is never published to the DA layer, so nothing will ever confirm it; if it kept
+// counting as pending, a run of MaxPendingHeadersAndData empty blocks would stop block production for good.
+func (m *Manager) skipEmptyPendingData(ctx context.Context) {
+	lastSubmitted := m.pendingData.getLastSubmittedDataHeight()
+	dataList, _ := m.pendingData.getPendingData(ctx)
+	skipTo := lastSubmitted
+	for _, data := range dataList {
+		if len(data.Txs) != 0 {
+			break
+		}
+		skipTo++
+	}
+	if skipTo > lastSubmitted {
+		m.pendingData.setLastSubmittedDataHeight(ctx, skipTo)
+	}
 }
 
 // createSignedDataToSubmit converts the list of pending data to a list of SignedData.
